@@ -351,6 +351,8 @@ def check_C10(tier, replay=None):
     runs = [("MC_C10_" + sh, {"Shape": '"%s"' % sh, "Small": "TRUE" if tier == "quick" else "FALSE"}) for sh in shapes]
     std_flow(R, "MC_C10", runs, "Trace_C10", {}, ("D06", "D06b", "D07"), ["RegistryInvariant", "AllModules", "Emit"])
     R.extra["exhaustive"] = True
+    # the writer's emission order (spec/Writer.tla), whose steps Trace_C10 matches against the emit hook events
+    wres, _, _, _ = mc_run(R, "MC_Writer", cfg("MCSpec", {}, invariants=["HelpersLast", "HeaderFirst", "Balanced", "EverythingOnce"], properties=["Finishes"]), "MC_Writer", workers=4)
     if tier == "thorough":
         # extra, beyond TLC's bounds: Apalache discharges the inductive invariant of the repaired registry design
         # (unbounded integer URIs and suffixes, any abbreviation function; registries of up to 6 entries)
